@@ -3,19 +3,19 @@ Load "coq/props/Hdr".
 From PM Require Import BuildG C01P C16.
 Lemma src_rt : rt_ok cfg. Proof. prove_rt. Qed.
 Lemma src_cfg_ok : cfg_ok cfg. Proof. sc. Qed.
-Theorem C16_deserialize_is_parse : forall (T E : Type) (sh : shape T E) e s, de cfg sh e (VStr s) = parse cfg sh s.
+Theorem C16_deserialize_is_parse : forall (T E : Type) (sh : shape T E) e f s, de cfg sh e (VStr f s) = parse cfg sh s.
 Proof. intros. apply C16_string_iff. Qed.
 Print Assumptions C16_deserialize_is_parse.
 Theorem C16_non_strings_refused : forall (T E : Type) (sh : shape T E) e, de cfg sh e VOther = Err e.
 Proof. intros. apply C16_other. Qed.
 Print Assumptions C16_non_strings_refused.
-Theorem C16_round_trip_generic : forall e s t p, parse cfg G s = Ok (t, p) -> ser cfg G (t, p) = VStr (format cfg G t p) /\ de cfg G e (ser cfg G (t, p)) = Ok (t, p).
+Theorem C16_round_trip_generic : forall e s t p, parse cfg G s = Ok (t, p) -> ser cfg G (t, p) = VStr Owned (format cfg G t p) /\ de cfg G e (ser cfg G (t, p)) = Ok (t, p).
 Proof.
   intros e s t p H. split; [reflexivity|]. apply C16_roundtrip. cbn [fst snd].
   refine (proj2 (C01_G cfg src_rt _ _ _ _ _ s t p H)); sc.
 Qed.
 Print Assumptions C16_round_trip_generic.
-Theorem C16_round_trip_typed : forall e s t p, parse cfg P s = Ok (t, p) -> ser cfg P (t, p) = VStr (format cfg P t p) /\ de cfg P e (ser cfg P (t, p)) = Ok (t, p).
+Theorem C16_round_trip_typed : forall e s t p, parse cfg P s = Ok (t, p) -> ser cfg P (t, p) = VStr Owned (format cfg P t p) /\ de cfg P e (ser cfg P (t, p)) = Ok (t, p).
 Proof.
   intros e s t p H. split; [reflexivity|]. apply C16_roundtrip. cbn [fst snd].
   refine (proj2 (C01_P cfg src_rt _ _ _ _ _ _ _ _ s t p H)); sc.
